@@ -66,7 +66,7 @@ def dot_break(text):
     return "(" + _DOT_RE.sub("\n            .", text) + ")"
 
 
-LAYOUTS = ["one-line", "args-on-lines", "keyword-form", "keyword-form-lines", "condition-multiline", "comments", "trailing-comma-desc-kw",
+LAYOUTS = ["one-line", "args-on-lines", "keyword-form", "keyword-form-lines", "condition-multiline", "comments", "odd-comments", "trailing-comma-desc-kw",
            "no-description", "no-description-kw", "break-before-matmul", "break-before-matmul-tight", "break-before-dot",
            "space-after-at", "parenthesised-decorator", "continuation-at-column-0"]
 NO_DESCRIPTION = ("no-description", "no-description-kw")
@@ -99,6 +99,14 @@ def make_layout(kind):
                     "",
                     "    %r%s" % (desc, extra),
                     "    # last comment",
+                    ")"]
+        if kind == "odd-comments":
+            # comments are free text: lone parentheses, brackets, quotes and an `@` in them mean nothing
+            return ["@icontract.%s(  # a) the half-open interval [0, 1)" % deco,
+                    "    # :-) and an opening one ( as well, a quote ' and \" too",
+                    "    %s,  # b) @second {" % lam,
+                    "    %r%s" % (desc, extra),
+                    "    # def not_a_def(): ]",
                     ")"]
         if kind in ("break-before-matmul", "break-before-matmul-tight"):
             # a break before a binary operator; with `@` the continuation line looks like a decorator (with no blank
